@@ -349,8 +349,7 @@ struct Runner {
       phaseGo.store(1);                                     // second run() drains what raced with the stop request
     }
     for (auto& t : th) t.join();
-    int last = w.nextItem.load();
-    for (int i = 1; i < last; ++i) w.wait_item(i);
+    for (int i = 1; i < w.nextItem.load(); ++i) w.wait_item(i);   // children are allocated before their parent is marked done
   }
 
   json run(long x) {
